@@ -1,10 +1,433 @@
-// Package c01 holds the runtime monitors for property C01 (see DESIGN.md section 4).
+// Package c01 holds the runtime monitor for property C01: exactly the
+// matching, in-scope, unsuppressed rules fire once per event (DESIGN.md 4).
+//
+// Files: ref.go (reference matcher written from the statement, with the known
+// deviations as switches), gen.go (exhaustive universes and random
+// generators), exec.go (execution on engine.NewRuleIndex / engine.NewProcessor
+// and the comparison).
 package c01
 
-import "verif/harness/core"
+import (
+	"fmt"
+	"os"
+	"time"
+
+	"github.com/krotik/ecal/engine"
+
+	"verif/harness/core"
+)
 
 func init() { core.Register("C01", Run) }
 
+const ruleNote = "Every case builds a fresh engine.NewRuleIndex() or engine.NewProcessor(w) from a generated rule set; each rule action is a harness closure counting per (event object, rule). " +
+	"Oracle: reference matcher written from the statement (kind: same number of segments, each equal or *; some pattern of the rule matches; state: every key present, nil = any, regexp on the string form, else (deep) equal; " +
+	"scope: most specific defined prefix of every required path, nothing defined = not allowed; fire set = matching in-scope rules minus those named by ANOTHER such rule; each exactly once; fire set non-empty => monitor not nil; " +
+	"on the bare index: Match as a set equals the reference match set, and Match non-empty or reference non-empty => IsTriggering). " +
+	"Streams: ex-kind (bare index; ALL sets of <=2 rules quick / <=3 rules thorough over 24 kind-match options [12 patterns of depth<=2 over {a,b,*} + 12 duplicate/overlapping/disjoint pairs inside one rule] x statematch {none,{k:nil},{k:1}}, each against ALL 120 events = kinds of depth 0..3 over {a,b,c} x state {{},{k:1},{k:x}}; quick adds a seeded sample of the 3-rule sets); " +
+	"ex-state (bare index; ALL sets of <=3 rules on kind a over 26 statematch options = none + {k,l} x {absent,nil,1,\"x\",/^x/}, each against ALL 16 event states {k,l} x {absent,nil,1,\"x\"} + 2 other kinds); " +
+	"ex-cache (processor; ALL sets of <=2 rules over 6 kind-match options x statematch {none,{k:1}} x ALL histories of 1 or 2 events over names {e,f} x kinds {a.b,c.d,a.c,a} x state {{},{k:1}}); " +
+	"ex-scope (processor; ALL sets of 2 rules [3 rules: all in thorough, seeded sample in quick] over kindmatch {a.b,a.*,c.d} x scopematch {[],[s],[s.t],[s,u]} x suppression list = any subset of the other rules, x 6 cascade scopes {nil,{s+},{s+,s.t-},{''+,s-},{''-,s.t+},{}}; event a.b); " +
+	"rand-index / rand-proc (seeded: 1-12 rules with 1-3 patterns of depth 1-4 incl. wildcards at every level, duplicate patterns, empty segments; optional block of up to 50 state rules on one pattern; regexps; scope requirements; suppression lists; priorities; 1-30 events per history biased towards matching, names {e,f,g}; " +
+	"event kinds with '*' segments or one dotted segment; non-string state keys; workers 1..8; AddEventAndWait one by one or a burst of AddEvent + ThreadPool.WaitAll; optional stop/AddRule/start in mid-history; every fifth event lets one matching rule add a child event through a child monitor from inside its action, the child is judged with the scope of its cascade); " +
+	"unhashable-index / unhashable-proc (list and map values on both sides); mask64 (60-140 state rules on one kind pattern, events aimed at rule numbers around 64 and 128, bare index and processor, run last in their own child processes because the known defect there does not terminate). " +
+	"Not generated (statement silent): a rule naming itself in its suppression list, numerically equal values of different Go types, NaN, regular expressions against list/map/float/bool values, regular expressions that could match a string form of nil, empty scope path requirements. " +
+	"Non-trivial = distinct case (rule set x history / rule set x event list) in which at least one event has a non-empty reference fire (match) set."
+
+// unhashableSafe probes whether list values can be used at all without a panic.
+func unhashableSafe() bool {
+	_, _, p1 := core.Guard(func() {
+		ri := engine.NewRuleIndex()
+		ri.AddRule(&engine.Rule{Name: "p", KindMatch: []string{"a"}, ScopeMatch: []string{}, StateMatch: map[string]interface{}{"k": 1}})
+		ri.Match(engine.NewEvent("e", []string{"a"}, map[interface{}]interface{}{"k": []interface{}{1}}))
+	})
+	_, _, p2 := core.Guard(func() {
+		ri := engine.NewRuleIndex()
+		ri.AddRule(&engine.Rule{Name: "p", KindMatch: []string{"a"}, ScopeMatch: []string{}, StateMatch: map[string]interface{}{"k": []interface{}{1}}})
+		ri.Match(engine.NewEvent("e", []string{"a"}, map[interface{}]interface{}{"k": []interface{}{1}}))
+	})
+	return !p1 && !p2
+}
+
+// maxLeaf: largest number of state rule entries on one kind pattern.
+func maxLeaf(rules []ruleSpec) int {
+	cnt := map[string]int{}
+	mx := 0
+	for _, r := range rules {
+		if !r.HasState {
+			continue
+		}
+		for _, p := range r.Kinds {
+			cnt[p]++
+			if cnt[p] > mx {
+				mx = cnt[p]
+			}
+		}
+	}
+	return mx
+}
+
+func allRules(cs *caseSpec) []ruleSpec {
+	all := append([]ruleSpec{}, cs.Rules...)
+	for _, s := range cs.Hist {
+		all = append(all, s.AddRules...)
+	}
+	return all
+}
+
+// procCaseRun wraps runProc with the progress slot and the evidence bookkeeping.
+func procCaseRun(c *core.Ctx, stream string, idx int, cs *caseSpec, sampleClass string) {
+	c.Begin(0, stream, idx, caseText(cs))
+	runProc(c, stream, idx, cs)
+	c.End(0)
+	if sampleClass != "" {
+		c.Sample(sampleClass, map[string]interface{}{"stream": stream, "idx": idx, "case": trunc(caseText(cs), 1500)})
+	}
+}
+
 // Run is the check.
 func Run(c *core.Ctx) {
+	c.Note("rule", ruleNote)
+	c.Note("exhaustive", "true")
+	part := os.Getenv("VH_C01_PART")
+	if c.Replay() {
+		part = ""
+	}
+	if part == "" || part == "main" {
+		t0 := time.Now()
+		lap := func(what string) {
+			if os.Getenv("VH_C01_TIMING") != "" {
+				fmt.Fprintf(os.Stderr, "timing %s %.2fs\n", what, time.Since(t0).Seconds())
+			}
+			t0 = time.Now()
+		}
+		runExhaustiveIndex(c)
+		lap("ex-index")
+		runExhaustiveProc(c)
+		lap("ex-proc")
+		runRandom(c)
+		lap("random")
+	}
+	if part == "" || part == "hazard" {
+		runHazard(c)
+	}
+}
+
+func runExhaustiveIndex(c *core.Ctx) {
+	// ---- ex-kind: sets of 1, 2 (and 3) rules
+	no := nRuleOptsKind()
+	n1, n2, n3 := no, no*no, no*no*no
+	total := n1 + n2
+	if !c.Quick() {
+		total += n3
+	}
+	mk := func(i int) []ruleSpec {
+		var opts []int
+		switch {
+		case i < n1:
+			opts = []int{i}
+		case i < n1+n2:
+			opts = decodeSet(i-n1, 2, no)
+		default:
+			opts = decodeSet(i-n1-n2, 3, no)
+		}
+		var rs []ruleSpec
+		for k, o := range opts {
+			rs = append(rs, exKindRule(o, fmt.Sprintf("r%d", k)))
+		}
+		return rs
+	}
+	for i := 0; i < total; i++ {
+		if !c.Take("ex-kind", i) {
+			continue
+		}
+		rs := mk(i)
+		if runIndex(c, "ex-kind", i, 0, rs, exKindEvents, false) > 0 {
+			c.Nontrivial(core.Hash64(fmt.Sprintf("ex-kind|%d", i)))
+		}
+		c.AddEvals(len(exKindEvents) - 1)
+		if i%40009 == 77 {
+			c.Sample("ex-kind", map[string]interface{}{"rules": descRules(rs), "events": "all 120 events of the universe"})
+		}
+	}
+	if c.Quick() {
+		ns := 12000
+		for i := 0; i < ns; i++ {
+			if !c.Take("ex-kind3-sample", i) {
+				continue
+			}
+			j := n1 + n2 + c.Rng("ex-kind3-sample", i).Intn(n3)
+			if runIndex(c, "ex-kind3-sample", i, 0, mk(j), exKindEvents, false) > 0 {
+				c.Nontrivial(core.Hash64(fmt.Sprintf("ex-kind|%d", j)))
+			}
+			c.AddEvals(len(exKindEvents) - 1)
+		}
+	}
+	// ---- ex-state: sets of 1..3 rules on kind a
+	so := len(stateOptionsFull)
+	total = so + so*so + so*so*so
+	for i := 0; i < total; i++ {
+		if !c.Take("ex-state", i) {
+			continue
+		}
+		var opts []int
+		switch {
+		case i < so:
+			opts = []int{i}
+		case i < so+so*so:
+			opts = decodeSet(i-so, 2, so)
+		default:
+			opts = decodeSet(i-so-so*so, 3, so)
+		}
+		var rs []ruleSpec
+		for k, o := range opts {
+			s := stateOptionsFull[o]
+			rs = append(rs, ruleSpec{Name: fmt.Sprintf("r%d", k), Kinds: []string{"a"}, Scope: []string{}, State: s.m, HasState: s.has})
+		}
+		if runIndex(c, "ex-state", i, 0, rs, exStateEvents, false) > 0 {
+			c.Nontrivial(core.Hash64(fmt.Sprintf("ex-state|%d", i)))
+		}
+		c.AddEvals(len(exStateEvents) - 1)
+		if i%5003 == 4000 {
+			c.Sample("ex-state", map[string]interface{}{"rules": descRules(rs), "events": "all 18 events of the universe"})
+		}
+	}
+}
+
+func runExhaustiveProc(c *core.Ctx) {
+	total := nCacheSets() * nCacheHists()
+	for i := 0; i < total; i++ {
+		if !c.Take("ex-cache", i) {
+			continue
+		}
+		sc := ""
+		if i%9973 == 5000 {
+			sc = "ex-cache"
+		}
+		procCaseRun(c, "ex-cache", i, exCacheCase(i), sc)
+	}
+	total = nScopeCases(2)
+	for i := 0; i < total; i++ {
+		if !c.Take("ex-scope2", i) {
+			continue
+		}
+		sc := ""
+		if i%1201 == 600 {
+			sc = "ex-scope"
+		}
+		procCaseRun(c, "ex-scope2", i, exScopeCase(2, i), sc)
+	}
+	total = nScopeCases(3)
+	if c.Quick() {
+		ns := 8000
+		for i := 0; i < ns; i++ {
+			if !c.Take("ex-scope3-sample", i) {
+				continue
+			}
+			j := c.Rng("ex-scope3-sample", i).Intn(total)
+			procCaseRun(c, "ex-scope3-sample", i, exScopeCase(3, j), "")
+		}
+	} else {
+		for i := 0; i < total; i++ {
+			if !c.Take("ex-scope3", i) {
+				continue
+			}
+			procCaseRun(c, "ex-scope3", i, exScopeCase(3, i), "")
+		}
+	}
+}
+
+func randOpts(r *core.Rand, unhashable bool) *genOpts {
+	o := &genOpts{maxRules: 12, maxDepth: 4, unhashable: unhashable}
+	if r.Chance(1, 3) {
+		o.maxRules = 4
+	}
+	if r.Chance(1, 6) {
+		o.bigLeaf = r.Range(20, 50)
+	}
+	return o
+}
+
+func runRandom(c *core.Ctx) {
+	n := c.Pick(20000, 400000)
+	for i := 0; i < n; i++ {
+		if !c.Take("rand-index", i) {
+			continue
+		}
+		r := c.Rng("rand-index", i)
+		rules, evs := randIndexCase(r, randOpts(r, false))
+		if maxLeaf(rules) >= 64 {
+			c.Event("generator.dropped.leaf>=64", 1)
+			continue
+		}
+		if runIndex(c, "rand-index", i, 0, rules, evs, false) > 0 {
+			c.Nontrivial(core.Hash64(fmt.Sprintf("rand-index|%d", i)))
+		}
+		c.AddEvals(len(evs) - 1)
+		if i%7001 == 13 {
+			c.Sample("rand-index", map[string]interface{}{"rules": descRules(rules), "first_event": descEvent(&evs[0], nil), "events": len(evs)})
+		}
+	}
+	n = c.Pick(5000, 120000)
+	for i := 0; i < n; i++ {
+		if !c.Take("rand-proc", i) {
+			continue
+		}
+		r := c.Rng("rand-proc", i)
+		cs := randProcCase(r, randOpts(r, false), true)
+		if maxLeaf(allRules(cs)) >= 64 {
+			c.Event("generator.dropped.leaf>=64", 1)
+			continue
+		}
+		sc := ""
+		if i%2003 == 11 {
+			sc = "rand-proc"
+		}
+		procCaseRun(c, "rand-proc", i, cs, sc)
+	}
+	n = c.Pick(1500, 30000)
+	for i := 0; i < n; i++ {
+		if !c.Take("unhashable-index", i) {
+			continue
+		}
+		r := c.Rng("unhashable-index", i)
+		o := &genOpts{maxRules: 5, maxDepth: 2, unhashable: true, noRuleList: i%2 == 0}
+		rules, evs := randIndexCase(r, o)
+		if dr, de, ok := designedUnhashable(i); ok {
+			rules, evs = dr, de
+		}
+		if runIndex(c, "unhashable-index", i, 0, rules, evs, false) > 0 {
+			c.Nontrivial(core.Hash64(fmt.Sprintf("unhashable-index|%d", i)))
+		}
+		c.AddEvals(len(evs) - 1)
+		if i%501 == 3 {
+			c.Sample("unhashable-index", map[string]interface{}{"rules": descRules(rules), "first_event": descEvent(&evs[0], nil), "events": len(evs)})
+		}
+	}
+}
+
+// runHazard holds the cases that can take the process down or never return on
+// a tree with the known defects #3 / #4; they run in their own children, last.
+func runHazard(c *core.Ctx) {
+	safe := unhashableSafe()
+	if safe {
+		c.Event("probe.unhashable.safe", 1)
+	} else {
+		c.Event("probe.unhashable.panics", 1)
+	}
+	n := c.Pick(400, 8000)
+	for i := 0; i < n; i++ {
+		if !safe && i >= 32 {
+			// every such case kills its child process; a handful is enough to name the defect
+			break
+		}
+		if !c.Take("unhashable-proc", i) {
+			continue
+		}
+		r := c.Rng("unhashable-proc", i)
+		o := &genOpts{maxRules: 5, maxDepth: 2, unhashable: true, noRuleList: i%2 == 0}
+		cs := randProcCase(r, o, false)
+		if len(cs.Hist) > 8 {
+			cs.Hist = cs.Hist[:8]
+		}
+		if dr, de, ok := designedUnhashable(i); ok {
+			cs = &caseSpec{Rules: dr, Workers: 1 + i%2}
+			for k := range de {
+				cs.Hist = append(cs.Hist, step{Event: &de[k]})
+			}
+		}
+		sc := ""
+		if i%97 == 5 {
+			sc = "unhashable-proc"
+		}
+		procCaseRun(c, "unhashable-proc", i, cs, sc)
+	}
+	n = c.Pick(16, 64)
+	for i := 0; i < n; i++ {
+		if !c.Take("mask64", i) {
+			continue
+		}
+		runMask64(c, i)
+	}
+}
+
+// runMask64: one case with 60..140 state rules on one kind pattern.
+func runMask64(c *core.Ctx, i int) {
+	r := c.Rng("mask64", i)
+	type design struct {
+		proc   bool
+		n      int
+		events []int // value of k selecting rule number k+1
+	}
+	designed := map[int]design{
+		0:  {false, 63, []int{0, 62, 31}},
+		1:  {false, 64, []int{63}}, // hang candidate (calling goroutine)
+		2:  {false, 64, []int{0, 62}},
+		3:  {false, 65, []int{64}},
+		4:  {false, 70, []int{64, 69, 66}},
+		5:  {true, 65, []int{64}},
+		6:  {true, 64, []int{0, 63}}, // hang candidate (worker)
+		7:  {true, 63, []int{62, 0}},
+		12: {false, 65, []int{63}}, // hang candidate, thorough only
+		13: {true, 70, []int{69, 63}},
+	}
+	pattern := "a.b"
+	d, isDesigned := designed[i]
+	if !isDesigned {
+		d = design{proc: r.Bool(), n: r.Range(60, 140)}
+		ne := r.Range(1, 4)
+		bounds := []int{62, 63, 64, 65, 126, 127, 128, 129}
+		for k := 0; k < ne; k++ {
+			v := r.Intn(d.n)
+			if r.Bool() {
+				if b := bounds[r.Intn(len(bounds))]; b < d.n {
+					v = b
+				}
+			}
+			d.events = append(d.events, v)
+		}
+		pattern = randPattern(r, r.Range(1, 3))
+	}
+	rules := bigLeafRules(r, d.n, pattern, "s")
+	if !isDesigned && r.Bool() {
+		rules = append(rules, ruleSpec{Name: "plain", Kinds: []string{pattern}, Scope: []string{}})
+	}
+	base := ruleSpec{Kinds: []string{pattern}}
+	o := &genOpts{maxDepth: 3}
+	var evs []eventSpec
+	for _, k := range d.events {
+		ev := randEvent(core.NewRand(uint64(i*1000+k)), o, []ruleSpec{base}, nil, 0)
+		ev.State = map[interface{}]interface{}{"k": k, "l": "x"}
+		// make the kind match the pattern exactly
+		ev.Kind = nil
+		for _, s := range splitPattern(pattern) {
+			if s == "*" {
+				s = "c"
+			}
+			ev.Kind = append(ev.Kind, s)
+		}
+		ev.Name = fmt.Sprintf("e%d", k)
+		evs = append(evs, ev)
+	}
+	c.Sample("mask64", map[string]interface{}{"idx": i, "processor": d.proc, "state_rules_on_pattern": d.n, "pattern": pattern, "events_select_rule_number": d.events})
+	if !d.proc {
+		if runIndex(c, "mask64", i, 0, rules, evs, true) > 0 {
+			c.Nontrivial(core.Hash64(fmt.Sprintf("mask64|%d", i)))
+		}
+		return
+	}
+	cs := &caseSpec{Rules: rules, Workers: r.Range(1, 3), NoNudge: true}
+	for k := range evs {
+		cs.Hist = append(cs.Hist, step{Event: &evs[k]})
+	}
+	m := newModel()
+	for _, rl := range rules {
+		m.addRule(rl)
+	}
+	pred := false
+	for _, e := range evs {
+		pred = pred || m.hangPredicted(e.Kind, e.State)
+	}
+	c.Begin(0, "mask64", i, fmt.Sprintf("processor, %d state rules {k:i} on pattern %s, events select rule numbers %v (+1), hang predicted by the known 64-rule defect: %v", d.n, pattern, d.events, pred))
+	runProc(c, "mask64", i, cs)
+	c.End(0)
 }
